@@ -139,6 +139,11 @@ func vRunCase7(t *testing.T, c vCase) (msg string) {
 						errs[i] = "concurrent Decode returned another caller's point"
 						return
 					}
+					// encodings of the identity and of the caller's own point, interleaved (an inversion of 0 next to inversions of others' Z)
+					if !bytes.Equal(NewElement().Encode(), []byte{0}) || !bytes.Equal(e.Encode(), j.comp) || !bytes.Equal(vElementOf(j.pt, big.NewInt(int64(it+3))).EncodeUncompressed(), j.unc) {
+						errs[i] = "a concurrent Encode returned bytes that are not the SEC1 encoding of the caller's own point"
+						return
+					}
 					s := NewScalar()
 					if err := s.Decode(j.kb); err != nil || vScalarVal(s).Cmp(j.k) != 0 {
 						errs[i] = "concurrent Scalar.Decode returned a wrong value"
